@@ -210,6 +210,74 @@ theorem C08_reconcile (s : S) (hflag : s.sharesChanged = true) (hU : UniquePaths
 theorem C08_cycle_idle (s : S) (hflag : s.sharesChanged = false) : (step s .cycle).1 = s := by
   simp [step, hflag]
 
+/-! ## Every change is followed by a cycle that sees it
+
+`_management_job` snapshots and clears `_management_flags` in the step in which it wakes up, so the
+model's `.cycle` is that step together with `manage_shares_changed`; the rest of the job changes
+nothing that is modelled. A change that arrives while a job is still suspended in one of its awaits
+is therefore simply an op after that `.cycle` — and it sets the flag again. -/
+
+/-- **The shares-changed flag is set by every op that changes anything entitlement depends on, and
+only a cycle clears it.** -/
+theorem C08_change_requests_cycle (s : S) (op : Op) (hop : op ≠ .cycle)
+    (h : s.sharesChanged = true ∨ entitlementInputs (step s op).1 ≠ entitlementInputs s) :
+    (step s op).1.sharesChanged = true := by
+  cases op with
+  | cycle => exact absurd rfl hop
+  | setFriends l => rfl
+  | setBlocked l => rfl
+  | share d disk =>
+    simp only [step] at h ⊢
+    split
+    · rfl
+    · simp only at h
+      rcases h with h | h
+      · exact h
+      · exact absurd rfl h
+  | unshare p =>
+    simp only [step] at h ⊢
+    split
+    · rfl
+    · simp only at h
+      rcases h with h | h
+      · exact h
+      · exact absurd rfl h
+  | setMode p m =>
+    simp only [step] at h ⊢
+    split
+    · rfl
+    · rename_i hr
+      simp only [hr, if_false] at h
+      rcases h with h | h
+      · exact h
+      · exact absurd rfl h
+  | phrases l => rcases h with h | h; exact h; exact absurd rfl h
+  | search u q => rcases h with h | h; exact h; exact absurd rfl h
+  | sharesReq u => rcases h with h | h; exact h; exact absurd rfl h
+  | dirReq u req => rcases h with h | h; exact h; exact absurd rfl h
+  | queueReq u p => rcases h with h | h; exact h; exact absurd rfl h
+  | xferReq u p => rcases h with h | h; exact h; exact absurd rfl h
+  | meth k m => rcases h with h | h; exact h; exact absurd rfl h
+  | userAbort k => rcases h with h | h; exact h; exact absurd rfl h
+  | userQueue k => rcases h with h | h; exact h; exact absurd rfl h
+
+/-- **No change is lost**: after an op that changed anything entitlement depends on, whatever
+follows that is not a cycle (requests, further changes — also those raised while an earlier cycle's
+job is still suspended), the flag is set when the next cycle starts; `C08_reconcile` then applies to
+that cycle, against the configuration as it is at that moment. -/
+theorem C08_change_seen_by_next_cycle (s : S) (op : Op) (mid : List Op) (hop : op ≠ .cycle)
+    (hmid : ∀ o ∈ mid, o ≠ .cycle)
+    (h : entitlementInputs (step s op).1 ≠ entitlementInputs s) :
+    (run (step s op).1 mid).sharesChanged = true := by
+  have h0 := C08_change_requests_cycle s op hop (Or.inr h)
+  generalize (step s op).1 = s' at h0
+  induction mid generalizing s' with
+  | nil => exact h0
+  | cons o mid ih =>
+    simp only [run, List.foldl_cons]
+    exact ih (fun o' ho' => hmid o' (by simp [ho'])) _
+      (C08_change_requests_cycle s' o (hmid o (by simp)) (Or.inl h0))
+
 /-! ## Uploads aborted on the user's request stay aborted -/
 
 /-- **Requested is sticky**: whatever the peers request and however often the friends list, the
@@ -310,6 +378,12 @@ example : (run s0 (setup ++ [.setFriends [], .setBlocked [(2, 32)], .cycle, .set
     [⟨1, pm, .queued, none⟩, ⟨2, pn, .queued, none⟩] := by decide
 example : (run s0 (setup ++ [.userAbort 0, .setFriends [], .cycle, .setFriends [1], .queueReq 1 pm, .cycle])).xs =
     [⟨1, pm, .aborted, some .requested⟩, ⟨2, pn, .queued, none⟩] := by decide
+/-- user 1 is blocked, the cycle this asks for starts (snapshot, clear, reconcile); while its job is still
+running user 2 is blocked too: the flag is set again and the next cycle aborts the second upload -/
+example : (run s0 (setup ++ [.setBlocked [(1, 32)], .cycle, .setBlocked [(1, 32), (2, 32)]])).sharesChanged = true := by
+  decide
+example : (run s0 (setup ++ [.setBlocked [(1, 32)], .cycle, .setBlocked [(1, 32), (2, 32)], .cycle])).xs =
+    [⟨1, pm, .aborted, some .blocked⟩, ⟨2, pn, .aborted, some .blocked⟩] := by decide
 /-- search: `*b` by the stranger: the public file is a normal result, the two friends-only files
 are locked results; with the phrase `AB` (upper case) excluded, `m/aB.b` is in neither part
 (`m/b/A.a`, whose path does not contain `ab`, stays) -/
